@@ -41,6 +41,34 @@ RULE = ("random DAGs with 1..6 nodes, node names str / int / mixed with insertio
         "behind and of the other operand compared after EVERY step against the model state machine and from-scratch "
         "formulas.  Non-trivial: >=2 variables and >=1 edge (networks) / >=2 variables "
         "(distributions); distinct = distinct canonical input")
+RULE += (
+    "  Generalisation classes (notes/GENERALISATION_CHECKLIST.md): "
+    "A sessions: `session` stream = one network object edited through add_cpds replacement, remove_cpds(+object or name)+"
+    "add_cpds, fit again (REUSED frame object overwritten in place), remove_edge/add_edge, with to_joint_gaussian and a "
+    "predict (reused frame object) checked against the model on the current state after every step; `seq` stream = the "
+    "same for one GaussianDistribution object incl. its precision cache.  B purity: frames given to predict/fit, CPD "
+    "objects, reduce/marginalize argument lists, product operands and caller-owned ndarrays are compared with deep "
+    "snapshots.  C result independence: every returned array (to_joint_gaussian, predict, marginalize/reduce/product/copy "
+    "results, canonical results and copies) is overwritten and the call repeated; distributions are also constructed from "
+    "C-contiguous float64 ndarrays and from a view of a larger reused buffer.  D frames: RangeIndex/shifted/permuted/"
+    "reversed/gapped/duplicate/string row labels for fit AND predict, physically permuted rows, int64 frames, zero-row "
+    "frames, shuffled columns, irrelevant constant column; categorical/bool columns do not apply (continuous data only).  "
+    "E names: str/int/mixed (incl. '' and 0), substring/prefix/digit-string/format-like names (x1,x10,x,1,10,G,G2,{0}), "
+    "tuples for distributions (sklearn rejects mixed-type and pandas tuple column names, so fit uses one type, frames no "
+    "tuples).  F state names: not applicable (continuous variables have no states).  G sizes: 9-10 variable networks with "
+    "small-int names >= 8 and a directed path through all nodes, missing sets of size 1..n, single-node/edgeless "
+    "networks, empty marginalize/reduce lists, zero-row frames, exact zero coefficients/intercepts/values, falsy names.  "
+    "H magnitudes: `gaussmag` rescales every variable by 2^-60..2^60 with tolerances relative to the quantity's unit; "
+    "networks with intercepts*2^20 and variances*2^30; magnitudes BELOW 1e-8 cannot be tested on networks because "
+    "to_joint_gaussian itself rounds to 8 decimals (reported to the coordinator as a limitation of the code as written).  "
+    "I backends: not applicable (these classes are numpy only).  J variants: inplace True/False and operators * / for "
+    "Gaussian and canonical forms, predict(distribution='joint'), fit(method='mle'), LinearGaussianCPD.fit(MLE|MAP), "
+    "normalize, get_random, simulate (replayed with the same numpy generator).  K rejections: add_cpds(good, foreign, good) "
+    "(state = model after the good prefix), reduce/marginalize with a LATER unknown variable in place (object unchanged), "
+    "fit without a column (CPDs unchanged), simulate with a CPD missing, predict without a missing variable, wrong-shape "
+    "constructors.  L orders: node/edge/CPD insertion, evidence vs parents, frame columns, value order in reduce, row "
+    "order, missing-set iteration order under several hash seeds.  M budget: handled by tools/check.py (seeded shuffle).")
+
 TRUSTED_BASE = ["numpy linalg.inv / matmul / fancy indexing / np.delete / round, sklearn LinearRegression and pandas "
                 "mean/var(ddof=1) are modelled by their documented meaning (Base/Matrix.v); the model's inverse is a "
                 "Gauss-Jordan search whose result is checked (W*A = I = A*W) inside the model before use",
@@ -192,10 +220,11 @@ def gen_fit(rng):
     N = rng.randint(maxp + 2, maxp + 9)
     cols = list(range(n))
     rng.shuffle(cols)
-    rows = [[jf(dy(rng, -4, 4)) for _ in range(n)] for _ in range(N)]
+    intdata = rng.random() < 0.25                       # integer-valued data in an int64 frame
+    rows = [[jf(dy(rng, -4, 4, 1 if intdata else 4)) for _ in range(n)] for _ in range(N)]
     return {"kind": "fit", "n": n, "nodes": nodes, "edges": [list(e) for e in edges],
-            "style": rng.choice(["str", "int"]), "nameseed": rng.randint(0, 10**9), "cols": cols, "rows": rows,
-            "extra": rng.random() < 0.4}
+            "style": rng.choice(["str", "int", "substr"]), "nameseed": rng.randint(0, 10**9), "cols": cols, "rows": rows,
+            "extra": rng.random() < 0.4, "intdata": intdata}
 
 
 INDEX_KINDS = ["range", "shifted", "permuted", "reversed", "gapped", "duplicate", "string"]
@@ -220,7 +249,7 @@ def gen_fit_index(rng):
     rows = [[jf(dy(rng, -4, 4)) for _ in range(n)] for _ in range(N)]
     return {"kind": "fit", "n": n, "nodes": nodes, "edges": edges, "style": rng.choice(["str", "int"]),
             "nameseed": rng.randint(0, 10**9), "cols": cols, "rows": rows, "extra": rng.random() < 0.3,
-            "indexes": list(INDEX_KINDS), "iseed": rng.randint(0, 10**9)}
+            "indexes": list(INDEX_KINDS) + ["rowperm"], "iseed": rng.randint(0, 10**9)}
 
 
 def make_index(kind, N, iseed):
@@ -269,7 +298,7 @@ def gen_gauss(rng):
     # second distribution: `shared` variables of the first (random positions) + fresh ones
     v2 = rng.sample(range(n), shared) + list(range(n, n + n2 - shared))
     rng.shuffle(v2)
-    return {"kind": "gauss", "n": n, "style": rng.choice(["str", "int", "mixed"]), "nameseed": rng.randint(0, 10**9),
+    return {"kind": "gauss", "n": n, "style": rng.choice(["str", "int", "mixed", "substr", "tuple"]), "nameseed": rng.randint(0, 10**9),
             "mean": [jf(dy(rng, -3, 3)) for _ in range(n)], "cov": [[jf(x) for x in r] for r in rand_pd(rng, n)],
             "v2": v2, "mean2": [jf(dy(rng, -3, 3)) for _ in range(len(v2))],
             "cov2": [[jf(x) for x in r] for r in rand_pd(rng, len(v2))], "qseed": rng.randint(0, 10**9)}
@@ -282,7 +311,7 @@ def gen_seq(rng, directed=False):
     scope = list(range(n))
     rng.shuffle(scope)
     nxt = n
-    case = {"kind": "seq", "style": rng.choice(["str", "int", "mixed"]), "nameseed": rng.randint(0, 10**9),
+    case = {"kind": "seq", "style": rng.choice(["str", "int", "mixed", "substr", "tuple"]), "nameseed": rng.randint(0, 10**9),
             "vars": list(scope), "mean": [jf(dy(rng, -3, 3)) for _ in range(n)],
             "cov": [[jf(x) for x in r] for r in rand_pd(rng, n)], "steps": []}
     nsteps = rng.randint(2, 5)
@@ -345,23 +374,33 @@ def cases(tier, seed):
                          [2, [jf(4), jf(-1)], jf(3), [1]]], "add_order": [0, 1, 2], "dummy": None, "dseed": 5})
     # the Coq refutation witness of the known finding canonical-marginalize-g, replayed on pgmpy
     out.append({"kind": "cwit"})
-    for _ in range(110 * k):
+    for _ in range(90 * k):
         out.append(gen_lgbn(rng))
     for _ in range(30 * k):
         out.append(gen_lgbn(rng, nmax=6, style="mixed") if rng.random() < 0.5 else gen_lgbn(rng, nmax=3))
-    for _ in range(70 * k):
+    for _ in range(50 * k):
         out.append(gen_fit(rng))
     for _ in range(40 * k):
         out.append(gen_fit_index(rng))
-    for _ in range(90 * k):
+    for _ in range(70 * k):
         out.append(gen_gauss(rng))
-    for i in range(140 * k):
+    for i in range(110 * k):
         out.append(gen_seq(rng, directed=(i % 3 == 0)))
-    for i in range(24 * k):
+    whats = ["no-missing", "bad-evidence", "foreign-cpd", "reduce-unknown", "multi-add", "fit-missing-col",
+             "simulate-incomplete", "get-random"]
+    for i in range(32 * k):
         c = gen_lgbn(rng, nmax=4)
         c["kind"] = "bad"
-        c["what"] = ["no-missing", "bad-evidence", "foreign-cpd", "reduce-unknown"][i % 4]
+        c["what"] = whats[i % len(whats)]
         out.append(c)
+    for _ in range(25 * k):
+        out.append(gen_lgbn(rng, nmax=5, mag=True))
+    for _ in range(5 * k):
+        out.append(gen_big(rng))
+    for _ in range(60 * k):
+        out.append(gen_session(rng))
+    for _ in range(30 * k):
+        out.append(gen_gaussmag(rng))
     return out
 
 
@@ -467,6 +506,17 @@ def run_lgbn(case, drv):
     n = case["n"]
     idx = {repr(nm): i for i, nm in enumerate(names)}
     tags = ["lgbn n=%d" % n, "style=" + case["style"], "edges=%d" % len(case["edges"])]
+    # natural units of the case (1 unless it is a magnitude case): tolerances are relative to max(unit, |exact value|),
+    # so that an exact zero next to entries of size 2^30 is not held to an absolute 1e-7
+    sa_, sb_ = case.get("mag", [1, 1])
+    uC = float(sb_)
+    uM = max(float(sa_), math.sqrt(float(sb_)))
+
+    def closeM(x, y, tol):
+        return abs(float(x) - float(y)) <= tol * max(uM, abs(float(y)))
+
+    def closeC(x, y, tol):
+        return abs(float(x) - float(y)) <= tol * max(uC, abs(float(y)))
 
     # ---- add_cpds (shuffled order, optional replacement of a throwaway CPD)
     add_seq = []
@@ -502,15 +552,15 @@ def run_lgbn(case, drv):
     mmu, mcov = fvec(mmu), fmat(mcov)
     if mu.shape != (n,) or cov.shape != (n, n):
         return bad("impl!=model:joint-shape", {"mu": list(mu.shape), "cov": list(cov.shape)})
-    if not all(close(mu[i], mmu[i], TOL_R) for i in range(n)) or not mat_close(cov, mcov, TOL_R):
+    if not all(closeM(mu[i], mmu[i], TOL_R) for i in range(n)) or not all(closeC(cov[i_][j_], mcov[i_][j_], TOL_R) for i_ in range(n) for j_ in range(n)):
         return bad("impl!=model:to_joint_gaussian", {"order": order, "impl_mu": mu.tolist(), "impl_cov": cov.tolist(),
                                                        "model_mu": [float(x) for x in mmu], "model_cov": tofl(mcov)})
     emu, eS = exact_joint(case, order)
     for i, v in enumerate(order):
-        if not close(mu[i], emu[v], TOL_R):
+        if not closeM(mu[i], emu[v], TOL_R):
             return bad("impl!=spec:joint-mean", {"var": v, "impl": float(mu[i]), "spec": float(emu[v])})
         for j, w in enumerate(order):
-            if not close(cov[i][j], eS[(v, w)], TOL_R):
+            if not closeC(cov[i][j], eS[(v, w)], TOL_R):
                 return bad("impl!=spec:joint-cov", {"vars": [v, w], "impl": float(cov[i][j]), "spec": float(eS[(v, w)])})
     # the unrounded model agrees with the exact recursion exactly (model sanity, ties the theorem's rnd = id case)
     umu, ucov = drv.call("c20_joint", [False, mc, order])
@@ -604,17 +654,17 @@ def run_lgbn(case, drv):
                   "impl_mu": pmu.tolist(), "impl_cov": pcov.tolist()}
         for q in range(a):
             for q2 in range(a):
-                if not close(pcov[q][q2], fr(mcov_c[q][q2]), TOL_R):
+                if not closeC(pcov[q][q2], fr(mcov_c[q][q2]), TOL_R):
                     detail.update({"model_cov": tofl(fmat(mcov_c)), "entry": [pvi[q], pvi[q2]]})
                     return bad("impl!=model:predict-cov", detail)
-                if not close(pcov[q][q2], scov[q][q2], TOL_R):
+                if not closeC(pcov[q][q2], scov[q][q2], TOL_R):
                     detail.update({"spec_cov": scov.tolist(), "entry": [pvi[q], pvi[q2]]})
                     return bad("impl!=spec:predict-cov", detail)
             for rr in range(nrows):
-                if not close(pmu[rr][q], fr(mmu_c[rr][q]), TOL_R):
+                if not closeM(pmu[rr][q], fr(mmu_c[rr][q]), TOL_R):
                     detail.update({"model_mu": tofl(fmat(mmu_c)), "entry": [rr, pvi[q]]})
                     return bad("impl!=model:predict-mean", detail)
-                if not close(pmu[rr][q], smu[rr][q], TOL_R):
+                if not closeM(pmu[rr][q], smu[rr][q], TOL_R):
                     detail.update({"spec_mu": smu.tolist(), "entry": [rr, pvi[q]]})
                     return bad("impl!=spec:predict-mean", detail)
         tags.append("missing=%d" % a)
@@ -676,22 +726,62 @@ def run_fit(case, drv):
     col = {v: np.array([float(r[cols.index(v)]) for r in rows]) for v in range(n)}
     nontrivial = False
     model_fit = {}
-    for ikind in case.get("indexes", ["range"]):
-        labels = make_index(ikind, N, case.get("iseed", 0))
-        df = pd.DataFrame(frame_rows, columns=pd.Index(frame_cols, dtype=object),
+    for ki, ikind in enumerate(case.get("indexes", ["range"])):
+        fr_rows = frame_rows
+        if ikind == "rowperm":                           # the rows themselves in another order: same least squares
+            perm = list(range(N))
+            random.Random(case.get("iseed", 0)).shuffle(perm)
+            fr_rows = [frame_rows[i] for i in perm]
+            labels = None
+        else:
+            labels = make_index(ikind, N, case.get("iseed", 0))
+        df = pd.DataFrame(fr_rows, columns=pd.Index(frame_cols, dtype=object),
                           index=None if labels is None else pd.Index(labels))
+        if case.get("intdata"):
+            df = df.astype("int64")
+        snap = df.copy(deep=True)
         m = LinearGaussianBayesianNetwork()
         m.add_nodes_from([names[v] for v in case["nodes"]])
         m.add_edges_from([(names[u], names[v]) for u, v in case["edges"]])
-        m.fit(df)
+        if (ki + N) % 2:
+            m.fit(df, method="mle")
+        else:
+            m.fit(df)
+        if not df.equals(snap) or list(df.index) != list(snap.index) or list(df.columns) != list(snap.columns) \
+                or list(df.dtypes) != list(snap.dtypes):
+            return bad("impl!=spec:fit-mutates-data", {"index": ikind})
         b = _check_fit(case, m, idx, N, col, mcols, mrows, drv, tags, ikind, model_fit)
         if isinstance(b, dict):
             return b
         nontrivial = nontrivial or b
         if "indexes" in case:
             tags.append("fit-index=" + ikind)
+    if case.get("intdata"):
+        tags.append("fit-int64-frame")
+    # ---- LinearGaussianCPD.fit(data, states, estimator="MLE"): same coefficients, sigma = sqrt(RSS / N)
+    from pgmpy.factors.continuous import LinearGaussianCPD
+    for (v, ev), (st, mr) in sorted(model_fit.items()):
+        if st != "ok" or not ev or "(Y|X)" in [names[u] for u in ev]:
+            continue
+        cd = LinearGaussianCPD(names[v], [0.0] * (len(ev) + 1), 1.0, [names[u] for u in ev])
+        dfc = pd.DataFrame({"(Y|X)": col[v], **{names[u]: col[u] for u in ev}})
+        dfc = dfc[["(Y|X)"] + [names[u] for u in ev]]
+        beta, sigma = cd.fit(dfc, ["(Y|X)"] + [names[u] for u in ev], estimator="MLE")
+        mb, mv = fvec(mr[0]), fr(mr[1])
+        s2 = float(mv) * (N - 1) / N
+        if len(beta) != len(mb) or not all(close(a_, b_, 1e-7) for a_, b_ in zip(beta, mb)) \
+                or not close(float(sigma) ** 2, s2, 1e-6):
+            return bad("impl!=model:LinearGaussianCPD.fit", {"node": v, "evidence": list(ev), "impl": [list(map(float, beta)), float(sigma)],
+                                                              "model": [[float(x) for x in mb], math.sqrt(s2)]})
+        try:
+            cd.fit(dfc, ["(Y|X)"] + [names[u] for u in ev], estimator="MAP")
+            return bad("impl!=spec:LinearGaussianCPD.fit-MAP-accepted", {})
+        except NotImplementedError:
+            pass
+        tags.append("LinearGaussianCPD.fit(MLE)")
+        break
     key = common.canon_key(["fit", n, sorted(map(tuple, case["edges"])), case["rows"], case["cols"],
-                            case.get("indexes"), case.get("iseed")])
+                            case.get("indexes"), case.get("iseed"), case.get("intdata")])
     return ok(nontrivial=nontrivial, key=key, tags=tags)
 
 
@@ -1019,6 +1109,110 @@ def run_gauss(case, drv):
                                                           "inplace_vars": [idx[repr(x)] for x in d_in.variables]})
             tags.append("divide-inplace")
         tags.append(opn + " shared=%d" % len([v for v in v2 if v in vars1]))
+
+    # ---- class J/C/B/K extras on this distribution -------------------------------------------------------------
+    def same_canon(x, y):
+        return [idx[repr(v)] for v in x.variables] == [idx[repr(v)] for v in y.variables] \
+            and np.allclose(x.K, y.K, rtol=1e-9, atol=1e-12) and np.allclose(x.h, y.h, rtol=1e-9, atol=1e-12) \
+            and close(x.g, y.g, 1e-9)
+
+    def same_gauss(x, y):
+        return [idx[repr(v)] for v in x.variables] == [idx[repr(v)] for v in y.variables] \
+            and np.allclose(x.mean, y.mean, rtol=1e-9, atol=1e-12) and np.allclose(x.covariance, y.covariance, rtol=1e-9, atol=1e-12)
+
+    c1, c2 = mk().to_canonical_factor(), d2.to_canonical_factor()
+    # operators and in-place variants of the canonical form agree with the inplace=False results checked above
+    for opn, fres in (("product", c1.product(c2, inplace=False)), ("divide", c1.divide(c2, inplace=False))):
+        cin = c1.copy()
+        rin = cin.product(c2, inplace=True) if opn == "product" else cin.divide(c2, inplace=True)
+        via_op = (c1 * c2) if opn == "product" else (c1 / c2)
+        if rin is not None or not same_canon(cin, fres) or not same_canon(via_op, fres):
+            return bad("impl!=spec:canonical-%s-inplace/operator" % opn, {"vars1": vars1, "vars2": v2})
+        if not same_canon(c1, mk().to_canonical_factor()) or not same_canon(c2, d2.to_canonical_factor()):
+            return bad("impl!=spec:canonical-%s-mutates-operand" % opn, {"vars1": vars1, "vars2": v2})
+    if not same_gauss(mk() * d2, mk().product(d2, inplace=False)):
+        return bad("impl!=spec:gaussian-mul-operator", {"vars1": vars1, "vars2": v2})
+    if n >= 2:
+        sel = [vars1[0]]
+        yv = [(names[vars1[0]], 0.5)]
+        for meth, arg in (("marginalize", [names[v] for v in sel]), ("reduce", yv)):
+            arg_snap = list(arg)
+            fres = getattr(c1, meth)(arg, inplace=False)
+            cin = c1.copy()
+            if getattr(cin, meth)(arg, inplace=True) is not None or not same_canon(cin, fres) or arg != arg_snap:
+                return bad("impl!=spec:canonical-%s-inplace" % meth, {"vars": vars1})
+            # result independence: scribble over the result, ask again
+            fres.K[...] = 9.0
+            fres.h[...] = 9.0
+            if not same_canon(getattr(c1, meth)(arg, inplace=False), cin) or not same_canon(c1, mk().to_canonical_factor()):
+                return bad("impl!=spec:canonical-%s-result-not-independent" % meth, {"vars": vars1})
+        cc = c1.copy()
+        cc.K[...] = 7.0
+        cc.h[...] = 7.0
+        if not same_canon(c1, mk().to_canonical_factor()):
+            return bad("impl!=spec:canonical-copy-shares-arrays", {"vars": vars1})
+    # GaussianDistribution: construct from ndarrays (C-contiguous float64, and a view of a larger reused buffer); the
+    # caller's arrays are never written to; results are independent of the source object
+    buf = np.zeros((n + 1, n + 1))
+    buf[:n, :n] = fcov
+    arr_m, arr_c = np.array(fmean, dtype=float), np.ascontiguousarray(fcov, dtype=float)
+    for src_c in (arr_c, buf[:n, :n]):
+        keep_m, keep_c = arr_m.copy(), np.array(src_c, copy=True)
+        dn = GD([names[v] for v in vars1], arr_m, src_c)
+        drop = [names[vars1[-1]]] if n >= 2 else []
+        r1 = dn.marginalize(drop, inplace=False)
+        r2 = dn.reduce([(names[vars1[0]], 0.25)], inplace=False) if n >= 2 else None
+        cfn = dn.to_canonical_factor()
+        ref = mk()
+        if not same_gauss(r1, ref.marginalize(drop, inplace=False)) or not same_canon(cfn, ref.to_canonical_factor()) \
+                or (r2 is not None and not same_gauss(r2, mk().reduce([(names[vars1[0]], 0.25)], inplace=False))):
+            return bad("impl!=spec:gaussian-from-ndarray", {"vars": vars1})
+        r1.mean[...] = 5.0
+        r1.covariance[...] = 5.0
+        if r2 is not None:
+            r2.mean[...] = 5.0
+            r2.covariance[...] = 5.0
+        dn.marginalize(drop, inplace=True)
+        dn.product(d2, inplace=True)
+        if not np.array_equal(arr_m, keep_m) or not np.array_equal(src_c, keep_c):
+            return bad("impl!=spec:gaussian-writes-to-callers-array", {"vars": vars1})
+    dsrc = mk()
+    rr = dsrc.marginalize([], inplace=False)
+    rr.mean[...] = 3.0
+    rr.covariance[...] = 3.0
+    cp = dsrc.copy()
+    cp.mean[...] = 3.0
+    cp.covariance[...] = 3.0
+    pr = dsrc.product(d2, inplace=False)
+    pr.mean[...] = 3.0
+    if not same_gauss(dsrc, mk()) or not same_gauss(dsrc.marginalize([], inplace=False), mk()):
+        return bad("impl!=spec:gaussian-result-not-independent", {"vars": vars1})
+    if dsrc.normalize(inplace=True) is not None or not same_gauss(dsrc.normalize(inplace=False), mk()) or not same_gauss(dsrc, mk()):
+        return bad("impl!=spec:gaussian-normalize", {"vars": vars1})
+    # rejected calls leave the object as it was (a LATER invalid entry, in place)
+    dk = mk()
+    for call_, arg, exc in ((dk.reduce, [(names[vars1[0]], 1.0), ("__nope__", 2.0)], ValueError),
+                            (dk.marginalize, (names[vars1[0]],), TypeError),
+                            (c1.reduce, [(names[vars1[0]], 1.0), ("__nope__", 2.0)], ValueError),
+                            (c1.marginalize, [names[vars1[0]], "__nope__"], ValueError)):
+        try:
+            call_(arg, inplace=True)
+            return bad("impl!=spec:invalid-argument-accepted", {"call": call_.__qualname__})
+        except exc:
+            pass
+    if not same_gauss(dk, mk()) or not same_canon(c1, mk().to_canonical_factor()):
+        return bad("impl!=spec:rejected-call-changed-object", {"vars": vars1})
+    for ctor in (lambda: GD([names[v] for v in vars1], list(fmean) + [0.0], fcov),
+                 lambda: GD([names[v] for v in vars1], fmean, np.zeros((n + 1, n + 1))),
+                 lambda: CanonicalDistribution([names[v] for v in vars1], np.eye(n), np.zeros(n + 1), 0.0),
+                 lambda: CanonicalDistribution([names[v] for v in vars1], np.eye(n + 1), np.zeros(n), 0.0)):
+        try:
+            ctor()
+            return bad("impl!=spec:constructor-accepts-wrong-shape", {"n": n})
+        except ValueError:
+            pass
+    tags.append("gauss-extras")
+
     key = common.canon_key(["gauss", n, vars1, case["mean"], case["cov"], case["v2"], case["mean2"], case["cov2"],
                             case["style"]])
     if pending_finding is not None:
@@ -1255,6 +1449,299 @@ def run_seq(case, drv):
     return ok(nontrivial=True, key=key, tags=tags)
 
 
+
+
+# ------------------------------------------------------------------ magnitudes
+def gen_gaussmag(rng):
+    c = gen_gauss(rng)
+    c["kind"] = "gaussmag"
+    c["n"] = max(2, c["n"])
+    if len(c["mean"]) < 2:
+        c = gen_gaussmag(rng)
+    c["exp"] = rng.choice([-60, -30, -12, 12, 30, 60])          # every variable is measured in units of 2^exp
+    return c
+
+
+def run_gaussmag(case, drv):
+    """the same distributions with every variable rescaled by s = 2^exp (exact in floats): mean ~ s, covariance ~ s^2,
+    K ~ s^-2, h ~ s^-1.  Every comparison is RELATIVE to the natural unit of the quantity (not to 1)."""
+    import numpy as np
+    from pgmpy.factors.distributions import GaussianDistribution as GD
+    n = len(case["mean"])
+    s = Fraction(2) ** case["exp"]
+    names = names_for(8, "str", case["nameseed"])
+    vars1 = list(range(n))
+    mean = [fr(x) * s for x in case["mean"]]
+    cov = [[fr(x) * s * s for x in r] for r in case["cov"]]
+    fs = float(s)
+    um, uc, uK, uh = fs, fs * fs, 1.0 / (fs * fs), 1.0 / fs
+    rng = random.Random(case["qseed"])
+
+    def rel(a, b, unit):
+        return abs(float(a) - float(b)) <= 1e-7 * max(unit, abs(float(b)))
+
+    def cmp(tag, d, mres, um_, uc_):
+        mv, mm, mc_ = mres
+        if [names.index(x) for x in d.variables] != mv:
+            return bad("impl!=model:mag-%s-variables" % tag, {"exp": case["exp"]})
+        dm, dc = np.asarray(d.mean).ravel(), np.asarray(d.covariance)
+        for i in range(len(mv)):
+            if not rel(dm[i], fr(mm[i]), um_):
+                return bad("impl!=model:mag-%s-mean" % tag, {"exp": case["exp"], "impl": dm.tolist(), "model": [float(fr(x)) for x in mm]})
+            for j in range(len(mv)):
+                if not rel(dc[i][j], fr(mc_[i][j]), uc_):
+                    return bad("impl!=model:mag-%s-cov" % tag, {"exp": case["exp"], "impl": dc.tolist(), "model": tofl(fmat(mc_))})
+        return None
+
+    def mk():
+        return GD([names[v] for v in vars1], [float(x) for x in mean], [[float(x) for x in r] for r in cov])
+    gm = [vars1, mean, cov]
+    for _ in range(2):
+        drop = rng.sample(vars1, rng.randint(1, n - 1))
+        b = cmp("marginalize", mk().marginalize([names[v] for v in drop], inplace=False), drv.call("c20_marg", [gm, drop]), um, uc)
+        if b:
+            return b
+        vals = [dy(rng, -3, 3) * s for _ in drop]
+        b = cmp("reduce", mk().reduce([(names[v], float(x)) for v, x in zip(drop, vals)], inplace=False),
+                drv.call("c20_reduce", [gm, [[v, x] for v, x in zip(drop, vals)]]), um, uc)
+        if b:
+            return b
+    cf = mk().to_canonical_factor()
+    (cv, cK, ch), back = drv.call("c20_canon", gm)
+    for i in range(n):
+        if not rel(cf.h[i][0], fr(ch[i]), uh):
+            return bad("impl!=model:mag-canonical-h", {"exp": case["exp"]})
+        for j in range(n):
+            if not rel(cf.K[i][j], fr(cK[i][j]), uK):
+                return bad("impl!=model:mag-canonical-K", {"exp": case["exp"], "impl": np.asarray(cf.K).tolist(), "model": tofl(fmat(cK))})
+    # g = -1/2 mu^T K mu - n/2 log(2 pi) - 1/2 log det(S); det(S) = s^(2n) det(S0): computed in the log domain here
+    base_cov = np.array(tofl(fmat(case["cov"])))
+    fm0 = np.array([float(fr(x)) for x in case["mean"]])
+    gspec = -0.5 * float(fm0 @ np.linalg.solve(base_cov, fm0)) - 0.5 * n * math.log(2 * math.pi) \
+        - 0.5 * (math.log(abs(np.linalg.det(base_cov))) + 2 * n * case["exp"] * math.log(2.0))
+    if not close(cf.g, gspec, 1e-7):
+        return bad("impl!=spec:mag-canonical-g", {"exp": case["exp"], "impl": float(cf.g), "spec": gspec})
+    b = cmp("canonical-roundtrip", cf.to_joint_gaussian(), back, um, uc)
+    if b:
+        return b
+    v2 = [v for v in case["v2"] if v < 8]
+    mean2 = [fr(x) * s for x in case["mean2"]][:len(v2)]
+    k2 = len(v2)
+    cov2 = [[fr(x) * s * s for x in r[:k2]] for r in case["cov2"][:k2]]
+    if v2 and len(case["v2"]) == k2:
+        d2 = GD([names[v] for v in v2], [float(x) for x in mean2], [[float(x) for x in r] for r in cov2])
+        (mv, mK, mh), mg = drv.call("c20_operate", [True, gm, [v2, mean2, cov2]])
+        if mg:
+            b = cmp("product", mk().product(d2, inplace=False), mg[0], um, uc)
+            if b:
+                return b
+    key = common.canon_key(["gaussmag", case["exp"], case["mean"], case["cov"], case["v2"]])
+    return ok(nontrivial=True, key=key, tags=["gaussmag exp=%d" % case["exp"], "gaussmag n=%d" % n])
+
+
+# ------------------------------------------------------------------ sessions on ONE network object
+def _rand_cpd(rng, v, pa):
+    pa = list(pa)
+    rng.shuffle(pa)
+    mean = [dy(rng, -3, 3)] + [Fraction(rng.choice([k for k in range(-8, 9) if k != 0]), 4) for _ in pa]
+    var = rng.choice([Fraction(1, 4), Fraction(1, 2), Fraction(1), Fraction(2), Fraction(4)])
+    return [v, [jf(x) for x in mean], jf(var), pa]
+
+
+def gen_session(rng):
+    """edits through every mutator between queries on one LinearGaussianBayesianNetwork object"""
+    n = rng.randint(3, 5)
+    order = list(range(n))
+    rng.shuffle(order)                                  # hidden topological order: edges go forward in it
+    rank = {v: i for i, v in enumerate(order)}
+    edges = [[order[i], order[j]] for i in range(n) for j in range(i + 1, n) if rng.random() < 0.5]
+    rng.shuffle(edges)
+    nodes = list(range(n))
+    rng.shuffle(nodes)
+    cpds = [_rand_cpd(rng, v, [u for (u, w) in edges if w == v]) for v in range(n)]
+    cur_edges = [list(e) for e in edges]
+    steps = []
+    for _ in range(rng.randint(4, 7)):
+        op = rng.choice(["replace", "replace", "remove+add", "fit", "fit", "remove_edge", "add_edge", "joint", "predict"])
+        if op in ("replace", "remove+add"):
+            v = rng.randrange(n)
+            steps.append({"op": op, "cpd": _rand_cpd(rng, v, [u for (u, w) in cur_edges if w == v])})
+        elif op == "fit":
+            prev = [x for x in steps if x["op"] == "fit"]
+            reuse = bool(prev) and rng.random() < 0.7
+            if reuse:
+                N, cols = len(prev[-1]["rows"]), list(prev[-1]["cols"])
+            else:
+                N = rng.randint(n + 3, n + 8)
+                cols = list(range(n))
+                rng.shuffle(cols)
+            steps.append({"op": "fit", "cols": cols, "rows": [[jf(dy(rng, -4, 4)) for _ in range(n)] for _ in range(N)],
+                          "reuse": reuse, "index": rng.choice(INDEX_KINDS)})
+        elif op == "remove_edge" and cur_edges:
+            e = rng.choice(cur_edges)
+            cur_edges = [x for x in cur_edges if x != e]
+            steps.append({"op": "remove_edge", "edge": e,
+                          "cpd": _rand_cpd(rng, e[1], [u for (u, w) in cur_edges if w == e[1]])})
+        elif op == "add_edge":
+            cand = [[order[i], order[j]] for i in range(n) for j in range(i + 1, n) if [order[i], order[j]] not in cur_edges]
+            if cand:
+                e = rng.choice(cand)
+                cur_edges.append(e)
+                steps.append({"op": "add_edge", "edge": e,
+                              "cpd": _rand_cpd(rng, e[1], [u for (u, w) in cur_edges if w == e[1]])})
+        else:
+            steps.append({"op": op if op in ("joint", "predict") else "joint"})
+    return {"kind": "session", "n": n, "nodes": nodes, "edges": edges, "style": rng.choice(["str", "int"]),
+            "nameseed": rng.randint(0, 10**9), "cpds": cpds, "steps": steps, "qseed": rng.randint(0, 10**9)}
+
+
+def run_session(case, drv):
+    """One network object; between queries it is edited through add_cpds (in-place replacement), remove_cpds + add_cpds,
+    fit (again, on a REUSED DataFrame object whose values were overwritten in place), remove_edge / add_edge (+ the
+    child's new CPD).  After EVERY step to_joint_gaussian and one predict must equal the model on the CURRENT state
+    (= what a freshly built network would give); the frames handed to fit / predict are left untouched."""
+    import numpy as np
+    import pandas as pd
+    import networkx as nx
+    from pgmpy.models import LinearGaussianBayesianNetwork
+    from pgmpy.factors.continuous import LinearGaussianCPD
+    n = case["n"]
+    names = names_for(n, case["style"], case["nameseed"])
+    idx = {repr(nm): i for i, nm in enumerate(names)}
+    rng = random.Random(case["qseed"])
+    m = LinearGaussianBayesianNetwork()
+    m.add_nodes_from([names[v] for v in case["nodes"]])
+    m.add_edges_from([(names[u], names[v]) for u, v in case["edges"]])
+    cur = {}                                             # exact current CPD per variable: [v, mean, var, evidence]
+    edges = [list(e) for e in case["edges"]]
+
+    def mk(c):
+        v, mean, var, ev = c
+        return LinearGaussianCPD(names[v], [float(fr(x)) for x in mean], float(fr(var)), [names[u] for u in ev])
+
+    for c in case["cpds"]:
+        m.add_cpds(mk(c))
+        cur[c[0]] = [c[0], fvec(c[1]), fr(c[2]), list(c[3])]
+    tags = ["session steps=%d" % len(case["steps"])]
+    fit_frame = [None]
+    pred_frame = {}
+
+    def check_state(where):
+        order = [idx[repr(x)] for x in nx.topological_sort(m)]
+        pos = {v: i for i, v in enumerate(order)}
+        if any(pos[u] > pos[v] for u, v in edges):
+            return bad("trusted-base:topological_sort", {"order": order, "edges": edges})
+        if sorted((idx[repr(a)], idx[repr(b)]) for a, b in m.edges()) != sorted(map(tuple, edges)):
+            return bad("impl!=spec:session-edges", {"where": where})
+        mc = [cur[v] for v in sorted(cur)]
+        mu, cov = m.to_joint_gaussian()
+        st, r = drv.call_e("c20_joint", [True, mc, order])
+        if st != "ok":
+            return bad("impl!=model:session-model-error", {"where": where, "code": r})
+        mmu, mcov = fvec(r[0]), fmat(r[1])
+        det = {"where": where, "steps": [s_["op"] for s_ in case["steps"]], "order": order}
+        if not all(close(mu[i], mmu[i], TOL_R) for i in range(n)) or not mat_close(cov, mcov, TOL_R):
+            return bad("impl!=model:session-joint", dict(det, impl_mu=mu.tolist(), model_mu=[float(x) for x in mmu],
+                                                         impl_cov=cov.tolist(), model_cov=tofl(mcov)))
+        # one predict; the frame object for a given column set is REUSED, its values overwritten in place
+        S = sorted(rng.sample(range(n), rng.randint(1, min(2, n - 1))))
+        obs = [v for v in range(n) if v not in S]
+        kf = tuple(obs)
+        vals = [[dy(rng, -4, 4) for _ in obs] for _ in range(2)]
+        if kf not in pred_frame:
+            pred_frame[kf] = pd.DataFrame([[0.0] * len(obs)] * 2, columns=pd.Index([names[v] for v in obs], dtype=object))
+        df = pred_frame[kf]
+        df.iloc[:, :] = [[float(x) for x in r_] for r_ in vals]
+        snap = df.copy(deep=True)
+        pv, pmu, pcov = m.predict(df)
+        if not df.equals(snap):
+            return bad("impl!=spec:predict-mutates-data", det)
+        pvi = [idx[repr(x)] for x in pv]
+        if sorted(pvi) != S:
+            return bad("impl!=spec:predict-variables", dict(det, missing=S, returned=pvi))
+        st, r = drv.call_e("c20_predict", [True, mc, order, pvi, obs, vals])
+        if st != "ok":
+            return bad("impl!=model:session-model-error", {"where": where, "code": r})
+        _, mmu_c, mcov_c = r
+        if not mat_close(np.asarray(pmu), fmat(mmu_c), TOL_R) or not mat_close(np.asarray(pcov), fmat(mcov_c), TOL_R):
+            return bad("impl!=model:session-predict", dict(det, missing=pvi, impl_mu=np.asarray(pmu).tolist(),
+                                                           model_mu=tofl(fmat(mmu_c)), impl_cov=np.asarray(pcov).tolist(),
+                                                           model_cov=tofl(fmat(mcov_c))))
+        return None
+
+    b = check_state("initial")
+    if b:
+        return b
+    for i, st_ in enumerate(case["steps"]):
+        op = st_["op"]
+        if op in ("replace", "remove+add", "remove_edge", "add_edge"):
+            c = st_["cpd"]
+            if op == "remove_edge":
+                m.remove_edge(names[st_["edge"][0]], names[st_["edge"][1]])
+                edges = [e for e in edges if e != st_["edge"]]
+            if op == "add_edge":
+                m.add_edge(names[st_["edge"][0]], names[st_["edge"][1]])
+                edges.append(list(st_["edge"]))
+            if op == "remove+add":
+                old = m.get_cpds(names[c[0]])
+                if i % 2:
+                    m.remove_cpds(old)
+                else:
+                    m.remove_cpds(names[c[0]])
+            before = len(m.cpds)
+            m.add_cpds(mk(c))
+            if len(m.cpds) != (before + 1 if op == "remove+add" else before):
+                return bad("impl!=model:session-add_cpds-count", {"step": i, "op": op})
+            cur[c[0]] = [c[0], fvec(c[1]), fr(c[2]), list(c[3])]
+        elif op == "fit":
+            cols = st_["cols"]
+            rows = [fvec(r_) for r_ in st_["rows"]]
+            N = len(rows)
+            labels = make_index(st_["index"], N, case["qseed"] + i)
+            old = fit_frame[0]
+            if st_["reuse"] and old is not None and old.shape == (N, n) and list(old.columns) == [names[v] for v in cols]:
+                df = old                                  # same object, same len / columns: new VALUES in place
+                df.iloc[:, :] = [[float(x) for x in r_] for r_ in rows]
+                tags.append("session:fit-reused-frame")
+            else:
+                df = pd.DataFrame([[float(x) for x in r_] for r_ in rows], columns=pd.Index([names[v] for v in cols], dtype=object),
+                                  index=None if labels is None else pd.Index(labels))
+            fit_frame[0] = df
+            snap = df.copy(deep=True)
+            X = np.array([[float(x) for x in r_] for r_ in rows])
+            full = all(np.linalg.matrix_rank(np.column_stack([np.ones(N)] + [X[:, cols.index(u)] for (u, w) in edges if w == v]))
+                       == 1 + sum(1 for (u, w) in edges if w == v) for v in range(n))
+            if not full:
+                return ok(nontrivial=False, key=common.canon_key(["session", case["qseed"]]), tags=tags + ["rank-deficient-skipped"])
+            m.fit(df) if i % 2 else m.fit(df, method="mle")
+            if not df.equals(snap) or list(df.index) != list(snap.index):
+                return bad("impl!=spec:fit-mutates-data", {"step": i})
+            if len(m.cpds) != n:
+                return bad("impl!=spec:fit-cpd-count", {"step": i, "cpds": len(m.cpds)})
+            for cobj in m.cpds:
+                v = idx[repr(cobj.variable)]
+                ev = [idx[repr(u)] for u in cobj.evidence]
+                if sorted(ev) != sorted(u for (u, w) in edges if w == v):
+                    return bad("impl!=spec:fit-evidence", {"step": i, "node": v, "evidence": ev})
+                r = drv.call("c20_fit", [cols, rows, v, ev])
+                mb, mv = fvec(r[0]), fr(r[1])
+                beta = [float(x) for x in np.asarray(cobj.mean).ravel()]
+                if len(beta) != len(mb) or not all(close(a_, b_, TOL) for a_, b_ in zip(beta, mb)) or not close(cobj.variance, mv, TOL):
+                    return bad("impl!=model:session-fit", {"step": i, "node": v, "evidence": ev, "index": st_["index"],
+                                                            "impl": [beta, float(cobj.variance)],
+                                                            "model": [[float(x) for x in mb], float(mv)]})
+                # the state to continue from is what the object now holds (the exact rationals of the fitted floats):
+                # the 8-decimal rounding of to_joint_gaussian is discontinuous, so continuing from the model's exact
+                # fit instead would let a 1e-13 least-squares rounding error flip a digit and be amplified by predict
+                cur[v] = [v, [Fraction(x) for x in beta], Fraction(float(cobj.variance)), ev]
+        b = check_state("after step %d (%s)" % (i, op))
+        if b:
+            return b
+        tags.append("session:" + op)
+    key = common.canon_key(["session", n, case["nodes"], case["edges"], case["cpds"], case["steps"], case["style"]])
+    return ok(nontrivial=True, key=key, tags=tags)
+
+
 # ------------------------------------------------------------------ malformed stream
 def run_bad(case, drv):
     import numpy as np
@@ -1328,6 +1815,76 @@ def run_bad(case, drv):
         except ValueError:
             pass
         return ok(nontrivial=True, key=key, tags=tags)
+    if what == "multi-add":
+        # add_cpds(good, foreign, good2): rejected at the foreign one; the CPDs before it were added, the later not
+        from pgmpy.models import LinearGaussianBayesianNetwork
+        m2 = LinearGaussianBayesianNetwork()
+        m2.add_nodes_from([names[v] for v in case["nodes"]])
+        m2.add_edges_from([(names[u], names[v]) for u, v in case["edges"]])
+        seq = list(case["add_order"])
+        k_ = len(seq) // 2
+        try:
+            m2.add_cpds(*([objs[v] for v in seq[:k_]] + [LinearGaussianCPD("__nope__", [1.0], 1.0, [])]
+                          + [objs[v] for v in seq[k_:]]))
+            return bad("impl!=spec:foreign-cpd-accepted", {})
+        except ValueError:
+            pass
+        got = [idx[repr(c.variable)] for c in m2.cpds]
+        exp = [c[0] for c in drv.call("c20_add_cpds", model_cpds(case, seq[:k_]))]
+        if got != exp:
+            return bad("impl!=model:add_cpds-after-rejection", {"impl": got, "model": exp})
+        return ok(nontrivial=True, key=key, tags=tags)
+    if what == "fit-missing-col":
+        if n < 2:
+            return ok(nontrivial=False, key=key, tags=tags + ["skipped"])
+        before = list(m.cpds)
+        df = pd.DataFrame([[0.5] * (n - 1)] * 4, columns=pd.Index([names[v] for v in range(1, n)], dtype=object))
+        try:
+            m.fit(df)
+            return bad("impl!=spec:fit-missing-column-accepted", {})
+        except ValueError:
+            pass
+        if len(m.cpds) != len(before) or any(a_ is not b_ for a_, b_ in zip(m.cpds, before)):
+            return bad("impl!=spec:rejected-fit-changed-cpds", {})
+        mu, cov = m.to_joint_gaussian()
+        mmu, mcov = drv.call("c20_joint", [True, mc, order])
+        if not all(close(mu[i], fr(mmu[i]), TOL_R) for i in range(n)) or not mat_close(cov, fmat(mcov), TOL_R):
+            return bad("impl!=model:to_joint_gaussian-after-rejected-fit", {"order": order})
+        return ok(nontrivial=True, key=key, tags=tags)
+    if what == "simulate-incomplete":
+        if n < 2:
+            return ok(nontrivial=False, key=key, tags=tags + ["skipped"])
+        m.remove_cpds(names[order[-1]])
+        try:
+            m.simulate(n=2, seed=1)
+            return bad("impl!=spec:simulate-without-all-cpds-accepted", {})
+        except ValueError:
+            pass
+        return ok(nontrivial=True, key=key, tags=tags)
+    if what == "get-random":
+        # get_random / get_random_cpds: whatever parameters were drawn, the joint is the model's on those parameters
+        from pgmpy.models import LinearGaussianBayesianNetwork
+        nn = n + 2
+        nm = names_for(nn, "str", case["nameseed"])
+        g = LinearGaussianBayesianNetwork.get_random(n_nodes=nn, edge_prob=0.5, node_names=nm if n % 2 else None,
+                                                     seed=case["dseed"] % 997)
+        gi = {repr(x): i for i, x in enumerate(g.nodes())}
+        if len(g.cpds) != nn:
+            return bad("impl!=spec:get_random-cpds", {"cpds": len(g.cpds)})
+        gm_ = []
+        for c in g.cpds:
+            if sorted(gi[repr(u)] for u in c.evidence) != sorted(gi[repr(u)] for u in g.get_parents(c.variable)):
+                return bad("impl!=spec:get_random-evidence", {})
+            gm_.append([gi[repr(c.variable)], [Fraction(float(x)) for x in np.asarray(c.mean).ravel()],
+                        Fraction(float(c.variance)), [gi[repr(u)] for u in c.evidence]])
+        go = [gi[repr(x)] for x in nx.topological_sort(g)]
+        mu, cov = g.to_joint_gaussian()
+        st, r = drv.call_e("c20_joint", [True, gm_, go])
+        if st != "ok":
+            return bad("impl!=model:get_random-model-error", {"code": r})
+        if not all(close(mu[i], fr(r[0][i]), TOL_R) for i in range(nn)) or not mat_close(cov, fmat(r[1]), TOL_R):
+            return bad("impl!=model:get_random-joint", {"order": go, "impl_cov": cov.tolist(), "model_cov": tofl(fmat(r[1]))})
+        return ok(nontrivial=True, key=key, tags=tags)
     if what == "reduce-unknown":
         from pgmpy.factors.distributions import GaussianDistribution as GD
         mu, cov = m.to_joint_gaussian()
@@ -1383,6 +1940,10 @@ def run_case(case, drv):
         return run_cwit(case, drv)
     if k == "seq":
         return run_seq(case, drv)
+    if k == "session":
+        return run_session(case, drv)
+    if k == "gaussmag":
+        return run_gaussmag(case, drv)
     if k == "lgbn":
         return run_lgbn(case, drv)
     if k == "fit":
